@@ -262,8 +262,8 @@ def __init__(self, sample_rate=3*u.GHz, fch1=0*u.GHz, ascending=True, num_pols=2
     ctx.require(adv, 'MultiAntennaArray.get_samples: per-antenna stream requests not found')
     ant = adv[0].data['recv'].single_atom().args[0]
     whole = [e for e in I.events if e.kind == 'call' and e.data.get('name') == '.get_samples' and e.data['recv'].key == ant.key]
-    clk = [e for e in I.events if e.kind == 'store' and e.data.get('name') == 't_start' and e.data['base'].key == ant.key and e.loops]
-    flg = [e for e in I.events if e.kind == 'store' and e.data.get('name') == 'start_obs' and e.data['base'].key == ant.key and e.loops]
+    clk = [e for e in I.events if e.kind == 'store' and e.data.get('target') == 'attr' and e.data.get('name') == 't_start' and e.data['base'].key == ant.key and e.loops]
+    flg = [e for e in I.events if e.kind == 'store' and e.data.get('target') == 'attr' and e.data.get('name') == 'start_obs' and e.data['base'].key == ant.key and e.loops]
     ok = bool(whole) or (len(clk) == 1 and len(flg) == 1)
     ctx.ob('AGREE', 'the array advances each antenna\'s own clock together with its streams', mg, ok,
            {'stream_requests': [e.text() for e in adv], 'antenna_clock_updates': [e.text() for e in clk + flg]},
@@ -282,7 +282,7 @@ def __init__(self, sample_rate=3*u.GHz, fch1=0*u.GHz, ascending=True, num_pols=2
         ctx.ob('FORMULA', 'antenna clock advance == num_samples * dt', mg, any((rhs - a).is_zero() for a in alts),
                {'advance': pretty(rhs)}, node=clk[0].node)
         ctx.formula('FORMULA', 'antenna start flag cleared', mg, flg[0].data['value'], T.FALSE, node=flg[0].node)
-    own = [e for e in I.events if e.kind == 'store' and e.data.get('name') == 't_start' and e.data['base'].key == sym('self').key]
+    own = [e for e in I.events if e.kind == 'store' and e.data.get('target') == 'attr' and e.data.get('name') == 't_start' and e.data['base'].key == sym('self').key]
     ctx.require(own, 'MultiAntennaArray.get_samples no longer advances its own clock')
     ctx.formula('FORMULA', 'array clock advance == num_samples * dt', mg, own[-1].data['value'],
                 ctx.spec(mg, 'self.t_start + num_samples * self.dt', I=ctx.interp(expand=False)), node=own[-1].node)
